@@ -174,7 +174,7 @@ func (c20) Gen(r *rand.Rand, tier string, idx int) *core.Plan {
 			if r.IntN(6) == 0 {
 				meta = int64(1 + r.IntN(3))
 			}
-			p.Ops = append(p.Ops, core.Op{Kind: "install", S: []string{name}, I: []int64{v, b(25), b(60), 1 - b(30), b(50), b(50), b(40), b(50), second, meta, int64(r.IntN(8) % 5), b(12)}})
+			p.Ops = append(p.Ops, core.Op{Kind: "install", S: []string{name}, I: []int64{v, b(25), b(60), 1 - b(30), b(50), b(50), b(40), b(50), second, meta, int64(r.IntN(8) % 5), b(12), b(10)}})
 		case x < 7:
 			p.Ops = append(p.Ops, core.Op{Kind: "uninstall", S: []string{name}})
 		case x < 9:
@@ -266,6 +266,10 @@ func (l c20) Exec(env *core.Env) *core.Result {
 			cur, inOp = i, false
 			rt.Yield("op")
 			name := op.Str(0)
+			if op.Kind == "install" && op.Int(12) == 1 && model[name] != nil {
+				// (before the operation begins: the installed plugin's interpreter goes away, see below)
+				os.WriteFile(filepath.Join(root, name, "notation-"+name), []byte("#!/nonexistent/interpreter-of-"+name+"\nexit 0\n"), 0755)
+			}
 			before := snapshot(root)
 			faultsBefore := user.FaultsSeen
 			inOp = true
@@ -366,6 +370,16 @@ func (l c20) Exec(env *core.Env) *core.Result {
 				if !usable || !metaOK {
 					mustRefuse = true
 				}
+				if old != nil && op.Int(12) == 1 {
+					// The installed plugin cannot be started any more (its interpreter is gone: starting it fails with
+					// "no such file or directory" although the file is there). Its version cannot be learnt, so nothing
+					// shows the new one to be strictly higher: without overwrite it is not replaced.
+					old.version = "?"
+					res.Probe("installed_plugin_can_no_longer_be_started")
+					if !overwrite {
+						mustRefuse = true
+					}
+				}
 				if !mustRefuse {
 					mustAccept = true
 				}
@@ -390,7 +404,7 @@ func (l c20) Exec(env *core.Env) *core.Result {
 				if err != nil {
 					verdict = "refused"
 				}
-				key := fmt.Sprintf("install v=%s over=%v installed=%v dir=%v exec=%v before=%v after=%v sub=%v shadow=%v second=%d meta=%d link=%d samename=%d", version, overwrite, old != nil, fromDir, candExec, extraBefore, extraAfter, subdir, shadow, second, meta, op.Int(10), op.Int(11))
+				key := fmt.Sprintf("install v=%s over=%v installed=%v dir=%v exec=%v before=%v after=%v sub=%v shadow=%v second=%d meta=%d link=%d samename=%d broken=%d", version, overwrite, old != nil, fromDir, candExec, extraBefore, extraAfter, subdir, shadow, second, meta, op.Int(10), op.Int(11), op.Int(12))
 				trace = append(trace, map[string]any{"op": key, "name": name, "verdict": verdict, "faulted": faulted})
 				sim.Abstract(key + "|" + name + "|" + verdict)
 				if old != nil || (fromDir && (extraBefore || extraAfter || subdir)) {
@@ -520,7 +534,7 @@ func (l c20) Exec(env *core.Env) *core.Result {
 				if unknown[name] || faulted {
 					continue
 				}
-				if m := model[name]; m != nil {
+				if m := model[name]; m != nil && m.version != "?" { // ("?": its interpreter was taken away; it cannot answer)
 					if err != nil || a != name+"@"+m.version {
 						res.Violate("C20/installed-plugin-not-fetchable", name, "Get+GetMetadata(%q) = %q, %v; installed version is %s", name, a, err, m.version)
 					}
